@@ -275,7 +275,10 @@ def main():
 
     lockdir = C.VERIF / "build" / "locks"
     lockdir.mkdir(parents=True, exist_ok=True)
-    lockf = open(lockdir / f"{prop}.lock", "w")
+    # properties that regenerate the SAME files under coq/generated share one lock (C10/C11: Tables_IO.v; C14/C15: PyLite_*.v
+    # and the ui.json tables; C01/C02/C09: one workspace model and its generated case imports)
+    group = {"C10": "io", "C11": "io", "C14": "ui", "C15": "ui", "C01": "ws", "C02": "ws", "C09": "ws"}.get(prop, prop)
+    lockf = open(lockdir / f"{group}.lock", "w")
     fcntl.flock(lockf, fcntl.LOCK_EX)
     t0 = time.time()
     seed = C.seed_from_env()
